@@ -197,6 +197,7 @@ func TestSelf(t *testing.T) {
 	selfProv(t)
 	selfCLIRule(t)
 	selfStore(t)
+	selfMixedShort(t)
 
 	if c := content(Case{Fill: "text", Len: 10, Seed: 1}); len(c) != 10 {
 		selfFail(t, "content length %d, want 10", len(c))
@@ -458,5 +459,85 @@ func selfStore(t *testing.T) {
 	mustWrite(dir+"/"+sid[:4]+"/"+sid+".cacnk", same.Compress(data))
 	if p, _ := objectOK(dir, sid, false, data, true); p != "" {
 		selfFail(t, "object check on a correct .cacnk file: %q", p)
+	}
+}
+
+// selfMixedShort: the limits of the short-write part are where their names say; the planted
+// neighbours of a mixed directory sort as the rule text claims, and the neighbours' part of the
+// verify oracle tells reported from missed and repaired from left.
+func selfMixedShort(t *testing.T) {
+	want := map[string]int{"zero": 0, "half-raw": 500, "below-raw": 993, "at-raw": 1000, "above-raw": 1007, "half-frame": 50, "below-frame": 93, "at-frame": 100, "above-frame": 107}
+	for _, l := range shortLimits {
+		if got := (ShortCase{Limit: l, Delta: 7}).norm().limit(1000, 100); got != want[l] {
+			selfFail(t, "limit %s for sizes 1000/100, delta 7: %d, want %d", l, got, want[l])
+		}
+	}
+	if (ShortCase{Limit: "below-raw", Delta: 50}).limit(3, 20) != 0 {
+		selfFail(t, "a limit below zero is not clamped")
+	}
+	data := textBytes(300, 9)
+	sid := sumID(data)
+	dir := t.TempDir()
+	m := newModel("self-test", sid, chunkIDOf(data), data)
+	m.state[false], m.state[true] = valid, valid
+	m.plantNeighbours(dir, []string{"junk", "hi", "tmp", "lo", "nonsense"}, 3, true)
+	if len(m.nbr) != 6 {
+		selfFail(t, "%d neighbours planted, want 6", len(m.nbr))
+	}
+	names := []string{m.path[false], m.path[true]}
+	for _, nb := range m.nbr {
+		names = append(names, nb.name)
+	}
+	sort.Strings(names)
+	p := sid[:4] + "/"
+	z, f := strings.Repeat("0", 59), strings.Repeat("f", 59)
+	order := []string{p + "+junk", p + ".tmp-cacnk.123456", p + sid[:4] + z + "c.cacnk", p + sid[:4] + z + "d", m.path[true], m.path[false], p + sid[:4] + f + "c.cacnk", p + sid[:4] + f + "d"}
+	if sid[4:] > z && sid[4:] < f && fmt.Sprint(names) != fmt.Sprint(order) {
+		selfFail(t, "mixed directory sorts %v, want %v", names, order)
+	}
+	hiC := sid[:4] + f + "c"
+	for _, tc := range []struct {
+		out    string
+		repair bool
+		gone   bool
+		want   []string
+	}{
+		{"chunk id " + sid[:4] + z + "c does not match\nchunk id " + hiC + " does not match", false, false, nil},
+		{"chunk id " + sid[:4] + z + "c does not match", false, false, []string{"C20:coexist:verify-missed-damaged-own-chunk"}},
+		{"chunk id " + sid[:4] + z + "c x\nchunk id " + hiC + " x\nchunk id " + sid[:4] + f + "d x", false, false, []string{"C20:coexist:verified-other-format"}},
+		{"chunk id " + sid[:4] + z + "c: removed\nchunk id " + hiC + ": removed", true, false, []string{"C20:coexist:verify-repair-left-damaged-own-chunk", "C20:coexist:verify-repair-left-damaged-own-chunk"}},
+	} {
+		var o hx.Outcome
+		rest := m.verifyNeighbours(&o, dir, false, tc.repair, tc.out, "self-test")
+		var got []string
+		for _, v := range o.Violations {
+			got = append(got, v.Sig)
+		}
+		sort.Strings(got)
+		if fmt.Sprint(got) != fmt.Sprint(tc.want) {
+			selfFail(t, "neighbour oracle on %q (repair=%v): %v, want %v", tc.out, tc.repair, got, tc.want)
+		}
+		if strings.Contains(rest, hiC) {
+			selfFail(t, "the line about the client's own damaged neighbour is not filtered: %q", rest)
+		}
+	}
+	classes := map[string]bool{"mixed:none": true}
+	var o hx.Outcome
+	for _, unc := range []bool{false, true} {
+		m.verifyNeighbours(&o, dir, unc, true, "", "self-test")
+	}
+	m2 := newModel("self-test", sid, chunkIDOf(data), data)
+	m2.plantNeighbours(t.TempDir(), []string{"lo"}, 3, false)
+	m2.verifyNeighbours(&o, dir, false, false, "", "self-test")
+	for _, c := range o.Classes {
+		classes[c] = true
+	}
+	for _, k := range neighbourKinds {
+		classes["mixed:"+k] = true
+	}
+	for _, r := range mixedRequired() {
+		if !classes[r] {
+			selfFail(t, "required class %q cannot be produced", r)
+		}
 	}
 }
